@@ -206,6 +206,61 @@ def indexed_traversal(ap, drv, g, info, role, owners):
     return bases, ""
 
 
+# adaptors between an owner's slot iterator and the code that moves the elements which keep "the k-th item handed on is the k-th item the slot iterator yields"
+LOCKSTEP_OK = {"enumerate", "zip", "map", "take", "inspect", "by_ref", "copied", "cloned", "rev", "slice", "peekable", "take_while", "map_while", "fuse"}
+
+
+def lockstep(a, terms, owner_slices, pos_val, role, back, facts, check_start, S_=None):
+    """The cursor of a builder / consumer says WHICH slots hold live elements, so the slot a step moves must be the slot the cursor designates:
+    (i) nothing between the owner's slot iterator and the step drops or reorders slots (skip, step_by, filter, chain, ...; `rev` under a builder),
+    (ii) the traversal starts at the cursor - slot iterator from element `cursor` on (forward) or ending at it (backward) when the traversal begins.
+    Returns (ok, detail)."""
+    bad = []
+    for sl in owner_slices:
+        def go(t, sl=sl):
+            if t == sl:
+                return True
+            if not isinstance(t, tuple):
+                return False
+            hit = False
+            for x in t:
+                if isinstance(x, tuple) and go(x):
+                    hit = True
+            if hit and len(t) >= 3 and t[0] == "V" and t[1] == "iter" and isinstance(t[2], str) and (t[2] not in LOCKSTEP_OK or (t[2] == "rev" and role == "builder")):
+                bad.append(t[2])
+            return hit
+        for t in terms:
+            go(t)
+    det = "slots reach the step in the order and number the slot iterator yields them%s" % ("" if not bad else " - NO: adaptor(s) %s in between" % sorted(set(bad)))
+    ok = not bad
+    if check_start and owner_slices:
+        start_ok = False
+        if pos_val is not None and pos_val[0] == "I":
+            for sl in owner_slices:
+                ptr = sl[3]
+                if ptr[0] != "P" or ptr[3] is None:
+                    continue
+                if ptr[2].t or pos_val[1].t or back:
+                    # a non-zero offset / cursor: compare in elements of the storage's stride
+                    from .poly import prove
+                    if S_ is not None:
+                        if back:
+                            if prove(("==", ptr[2] + ptr[3] * S_ - pos_val[1] * S_), a.poly_facts(facts)):
+                                start_ok = True
+                        elif prove(("==", ptr[2] - pos_val[1] * S_), a.poly_facts(facts)):
+                            start_ok = True
+                elif not back:
+                    start_ok = True   # offset 0, cursor 0
+        else:
+            start_ok = None
+        if start_ok is None:
+            det += "; where the traversal starts relative to the cursor is not decided here (cursor %s)" % (vstr(pos_val),)
+        else:
+            det += "; the traversal starts at the slot the cursor designates (cursor %s): %s" % (vstr(pos_val), start_ok)
+            ok = ok and start_ok
+    return ok, det
+
+
 def link_closure(ctx, cfg, cb, info, role, rule):
     """Parent-side obligations for an element-moving closure: its positions are fields of tracked owners,
     its slots come from those owners' storage, and each owner is dropped on the unwind path of the call that drives the closure."""
@@ -310,6 +365,23 @@ def link_closure(ctx, cfg, cb, info, role, rule):
                     else:
                         src_ok = ("field", obase, (o["array"],)) in slice_bases
                     det += "; position field '%s' of owner %s; slots iterate that owner's storage: %s" % (o["names"][opath[0]], adt.split("::")[-1], src_ok)
+                    if src_ok and not (info.get("indexed") or info.get("enum_abs")):
+                        from .absint import State as _St
+                        if o["array_is_ref"]:
+                            mine = [s_ for s_ in slices if arrp is not None and s_[3][1] == arrp[1]]
+                        else:
+                            mine = [s_ for s_ in slices if s_[3][1] == ("field", obase, (o["array"],))]
+                        pv = ap.read_cell(_St(drv.mem, drv.facts), obase, (opath[0],), {"k": "prim", "n": "usize"})
+                        back_ = drv.fn.split("::")[-1] in ("rfold", "try_rfold", "rfind", "rposition", "next_back", "nth_back")
+                        for x_ in resolved_args(ap, drv):
+                            if find_in(x_, lambda t: isinstance(t, tuple) and len(t) >= 3 and t[0] == "V" and t[1] == "iter" and t[2] == "rev"):
+                                back_ = not back_
+                        back_ = back_ and role == "consumer"
+                        lt_ = ap.local_ty(obase[1]) if obase[0] == "local" else None
+                        ta_ = [x for x in lt_["args"] if x.get("k") != "region"] if lt_ is not None and lt_.get("k") == "adt" else []
+                        ls_ok, ls_det = lockstep(ap, resolved_args(ap, drv), mine, pv, role, back_, drv.facts, obase[0] == "local", ap.tenv.size(ta_[0]) if ta_ else None)
+                        det += "; " + ls_det
+                        src_ok = src_ok and ls_ok
                     # which end of the claimed range moves, and which way: a traversal from the front disowns slots by raising the low position
                     # (+1 per slot), one from the back by lowering the high position (-1); anything else leaves moved-out slots claimed and
                     # live ones unclaimed
